@@ -35,6 +35,7 @@ class Gen:
     self.used_features = {}
     self._reserved = set()
     self._taken = set()
+    self._call_bound = set()
 
   # -- small helpers -----------------------------------------------------------------------------
   def p(self, name):
@@ -277,6 +278,7 @@ class Gen:
     if c_is_value_only(args):
       pass
     bound.update(new)
+    self._call_bound.update(new)
     return ('call', name, tuple(args))
 
   def gen_filter(self, bound):
@@ -288,9 +290,13 @@ class Gen:
       # `in` with an already bound left side is a filter (a repeated element repeats the solution)
       t = 'int' if (ints and (not strs or r.random() < 0.7)) else 'str'
       self.mark('in_filter')
-      v = r.choice(ints if t == 'int' else strs)
-      others = {k: vt for k, vt in bound.items() if k != v}     # `x in [x, ...]` is (rightly) reported as circular
-      return ('in', ir.V(v), ('list', tuple(self.gen_expr(t, others, 1, False) for _ in range(r.choice([1, 2, 3])))))
+      # both the tested variable and the variables in the list come straight from table columns: a list that
+      # depends on the tested variable (directly or through assignments) is (rightly) reported as circular
+      cb = [x for x in (ints if t == 'int' else strs) if x in self._call_bound]
+      if cb:
+        v = r.choice(cb)
+        others = {k: vt for k, vt in bound.items() if k != v and k in self._call_bound}
+        return ('in', ir.V(v), ('list', tuple(self.gen_expr(t, others, 1, False) for _ in range(r.choice([1, 2, 3])))))
     if strs and r.random() < 0.25:
       return ('cmp', r.choice(['==', '!=', '<', '>=']), ir.V(r.choice(strs)), self.gen_expr('str', bound, 1, False))
     if ints:
@@ -355,6 +361,7 @@ class Gen:
     r = self.rng
     self._taken = set()
     self._reserved = set()
+    self._call_bound = set()
     bound = {}
     lits = []
     n_calls = n_calls if n_calls is not None else r.choice([1, 1, 2, 2, 3])
